@@ -302,6 +302,16 @@ pub fn exec_op(op: &Op, ctx: Ctx) {
         if ctx != Ctx::Outside {
             w.cov_inops |= 1 << opcode(op);
             w.count("in_callback_op");
+            if w.matrix {
+                // (running source kind x operation) coverage for C08
+                let runner = match ctx {
+                    Ctx::Cb(u) => w.srcs[u].spec.kind.name(),
+                    _ => "idle-callback",
+                };
+                let name = format!("{:?}", op);
+                let name = name.split(|c: char| !c.is_alphanumeric()).next().unwrap_or("op").to_string();
+                *w.cov_extra.entry(format!("in:{}:{}", runner, name)).or_insert(0) += 1;
+            }
         }
         w.handle.clone()
     }) else {
